@@ -63,9 +63,9 @@ fn ct_bytes(s: &str) -> Vec<u8> {
 }
 const BODIES: [&str; 6] = ["json", "empty", "binary", "64k", "chunked", "close-delimited"];
 const REQ_BODIES: [&str; 4] = ["small", "1k", "64k", "bytes256"];
-const FAULTS: [&str; 10] = [
+const FAULTS: [&str; 11] = [
     "refused", "closed-before-reply", "truncated-200", "truncated-400", "closed-after-head", "truncated-chunked-at-boundary",
-    "truncated-chunked", "garbage-binary", "garbage-status-line", "garbage-status-099",
+    "truncated-chunked", "garbage-binary", "garbage-status-line", "garbage-status-099", "truncated-huge-content-length",
 ];
 const TARGET: &str = "/token?tenant=a%20b&x=1";
 const WATCHDOG: Duration = Duration::from_secs(5);
@@ -625,6 +625,12 @@ fn run_case(c: &Case) -> Result<CaseRun, String> {
             "garbage-status-099" => (
                 Some(vec![Action::Garbage(b"HTTP/1.1 099 Weird\r\nContent-Type: application/json\r\nContent-Length: 2\r\nConnection: close\r\n\r\n{}".to_vec())]),
                 "f 3".to_string(),
+                None,
+            ),
+            // a Content-Length no buffer can be pre-sized for (2^63), a few body bytes, then the connection closes: a truncated body
+            "truncated-huge-content-length" => (
+                Some(vec![Action::Garbage(b"HTTP/1.1 200 OK\r\nContent-Type: application/json\r\nContent-Length: 9223372036854775808\r\nConnection: close\r\n\r\n{\"access_token\":".to_vec())]),
+                format!("f 5 200 {} {}", hex(b"application/json"), hex(b"{\"access_token\":")),
                 None,
             ),
             f => return Err(format!("unknown fault {f}")),
